@@ -1,6 +1,7 @@
 package main
 
 import (
+	"crypto"
 	"bytes"
 	"crypto/ecdsa"
 	"crypto/elliptic"
@@ -109,6 +110,36 @@ func newKeyCert(curve string, hosts []string, pad int) *keyCert {
 	return &keyCert{key, []*x509.Certificate{cert}, buf.Bytes(), curve}
 }
 
+// renew issues another certificate for the same key (what a certificate renewal does)
+func renew(kc *keyCert, pad int) *keyCert {
+	serial++
+	tmpl := &x509.Certificate{
+		SerialNumber: big.NewInt(serial),
+		Subject:      pkix.Name{CommonName: "verif renewed " + kc.curve, Organization: []string{string(bytes.Repeat([]byte{'y'}, pad))}},
+		NotBefore:    time.Unix(946684800, 0),
+		NotAfter:     time.Unix(4102444800, 0),
+		DNSNames:     kc.certs[0].DNSNames,
+		KeyUsage:     x509.KeyUsageDigitalSignature,
+	}
+	der, err := x509.CreateCertificate(crand.Reader, tmpl, tmpl, &kc.key.PublicKey, kc.key)
+	if err != nil {
+		panic(err)
+	}
+	cert, err := x509.ParseCertificate(der)
+	if err != nil {
+		panic(err)
+	}
+	chain, err := certurl.NewCertChain([]*x509.Certificate{cert}, []byte("ocsp"), nil)
+	if err != nil {
+		panic(err)
+	}
+	var buf bytes.Buffer
+	if err := chain.Write(&buf); err != nil {
+		panic(err)
+	}
+	return &keyCert{kc.key, []*x509.Certificate{cert}, buf.Bytes(), kc.curve}
+}
+
 var quiet = log.New(ioutil.Discard, "", 0)
 
 type tstamp struct {
@@ -158,7 +189,11 @@ type sxSpec struct {
 	dateNs   int64 // sub-second parts of the Signer's Date / Expires (the format carries whole seconds: floor)
 	expNs    int64
 	skipMI   bool
+	shared   bool // sign through the long-lived Signer object (fields updated in place between exchanges)
 }
+
+// one Signer object used for many exchanges, its certificate / key / times replaced between them
+var sharedSigner = &sxg.Signer{}
 
 type signedEx struct {
 	e      *sxg.Exchange
@@ -190,7 +225,17 @@ func buildSigned(sp *sxSpec, kc *keyCert) *signedEx {
 	}
 	cu, _ := url.Parse(sp.certURL)
 	vu, _ := url.Parse(sp.vURL)
-	r.signer = &sxg.Signer{Date: time.Unix(sp.date, sp.dateNs), Expires: time.Unix(sp.expires, sp.expNs), Certs: kc.certs, CertUrl: cu, ValidityUrl: vu, PrivKey: kc.key}
+	if sp.shared {
+		r.signer = sharedSigner
+		r.signer.Date, r.signer.Expires, r.signer.Certs = time.Unix(sp.date, sp.dateNs), time.Unix(sp.expires, sp.expNs), kc.certs
+		if r.signer.PrivKey != crypto.PrivateKey(kc.key) {
+			// Algorithm is a public field derived from PrivKey on first use: a caller that replaces the key resets it
+			r.signer.Algorithm = nil
+		}
+		r.signer.CertUrl, r.signer.ValidityUrl, r.signer.PrivKey = cu, vu, kc.key
+	} else {
+		r.signer = &sxg.Signer{Date: time.Unix(sp.date, sp.dateNs), Expires: time.Unix(sp.expires, sp.expNs), Certs: kc.certs, CertUrl: cu, ValidityUrl: vu, PrivKey: kc.key}
+	}
 	if err := e.AddSignatureHeader(r.signer); err != nil {
 		r.err = "sign"
 	}
